@@ -17,6 +17,8 @@ Differences from task.Clock that matter (DESIGN 6 C15, learned from a prototype)
     (coq/Model/Reactor.v) takes as an argument;
   * run() installs its own handlers for SIGINT/SIGTERM/SIGCHLD like the real
     reactor, so that "the handlers are restored" is not vacuous;
+  * interrupts (C14) are out-of-band events at virtual instants, delivered like a signal whose handler
+    calls reactor.stop(); they are not DelayedCalls and never show up as junk;
   * the class attribute `stop` is the REAL stop (a stopped reactor cannot be
     restarted): `really_stopped` records that it was called.
 """
@@ -32,8 +34,9 @@ class Hang(Exception):
 
 
 class VReactor:
-    def __init__(self, oracle=(), install_signals=True):
+    def __init__(self, oracle=(), install_signals=True, interrupts=()):
         self.clock = Clock()
+        self._interrupts = sorted(interrupts)   # instants at which a signal arrives and its handler calls self.stop()
         self.running = False
         self.really_stopped = False
         self._hooks = []          # callWhenRunning before run(): 'after startup' triggers
@@ -93,10 +96,29 @@ class VReactor:
             f, a, kw = self._hooks.pop(0)
             f(*a, **kw)
         while self.running:
+            if self._deliver_interrupt():
+                continue
             if not self.clock.calls:
                 self.running = False
                 raise Hang()
             self._run_one(None)
+
+    def _deliver_interrupt(self):
+        """An interrupt (out of band, like a signal: not a DelayedCall) due at instant s is delivered before the
+        first delayed call whose time is >= s: the handler does what the real reactor's sigInt does, it calls
+        whatever reactor.stop currently is."""
+        if not self._interrupts:
+            return False
+        s = self._interrupts[0]
+        calls = self.clock.calls
+        if calls and min(c.getTime() for c in calls) < s:
+            return False
+        self._interrupts.pop(0)
+        if s > self.clock.rightNow:
+            self.clock.rightNow = s
+        self.interrupts_delivered = getattr(self, "interrupts_delivered", 0) + 1
+        self.stop()
+        return True
 
     def _candidates(self, limit):
         calls = self.clock.calls
